@@ -5,7 +5,9 @@ Decides three structural clauses (and says so):
     is not attacked, else `Score::MIN + K + real_depth`; the mover is captured before any move is played;
  N2 the mate constants are ordered against the driver's exit thresholds: a *verified* mate (K = 100, checked list) always
     ends the iteration loop, an unverified one (depth-1: 2000, quiescence: 3000) never does; no overflow;
- N3 no legal move => no bestmove: an empty checked root list yields None through entry point, driver and UCI layer.
+ N3 no legal move => no bestmove: an empty checked root list yields None through entry point, driver and UCI layer;
+ N6-N8 what the table may decide: the root answers only from a deep exact entry, a node only from an entry that settles its
+    window, and a node labels what it stores against the window it was entered with (by cases).
 Does NOT decide that a depth-3/5 search actually plays the mating move (search numerics, same reason as C09).
 """
 from . import core, hir
@@ -183,9 +185,131 @@ def n6(ctx, F, rule="C10.N6"):
     # (no floor: a root that never answers from the table has nothing to get wrong here)
 
 
+def n7(ctx, F, rule="C10.N7"):
+    """N7 inside the tree a stored result ends a node only when it is sound for the window asked for: an entry at least as deep as
+    the remaining depth that is exact, or a lower bound at or above beta, or an upper bound at or below alpha.  Anything else (a
+    bound inside the window taken for a value, a shallower result) hands the parent a score no search of that depth supports -
+    from a fresh table the entries of the previous iteration then decide the next one, and a mate inside the horizon can be hidden
+    behind such a score.  Decided by cases over (entry depth, kind of entry, stored score against the window)."""
+    fn = F.fn("search::get_best_move_score")
+    body = fn["hir"]["body"]
+    sym = hir.Sym(hir.Env(fn["hir"], F), F)
+    SOME = "std::prelude::v1::Some"
+    rets = []
+    for r, anc in hir.walk(body):
+        if r.get("k") != "Ret" or r.get("e") is None or any(a_.get("k") == "Loop" for a_ in anc):
+            continue
+        g = hir.guards_of(r, body, sym) or []
+        term = hir.guards_term(g)
+        gets = [t_ for t_ in hir.subterms(term) if isinstance(t_, tuple) and t_[:1] == ("call",) and str(t_[1]).endswith("HashMap::<K, V, S, A>::get")]
+        if not gets:
+            continue
+        names_e = {nm for g_ in g if g_[0] == "if" and isinstance(g_[1], tuple) and g_[1][:1] == ("let",) and
+                   any(x_ in gets for x_ in hir.subterms(g_[1][2])) for nm in (g_[1][3] if len(g_[1]) > 3 else ())}
+        rv = sym(r["e"])
+        if not any(isinstance(t_, tuple) and t_[:1] == ("field",) and t_[1][:1] == ("var",) and t_[1][1] in names_e for t_ in hir.subterms(rv)):
+            continue
+        t1 = hir.fold(term, {g_: ("ctor", SOME, (("var", "ENTRY"),)) for g_ in gets})
+        rets.append((r, t1))
+    if not rets:
+        return          # a node that never answers from the table has nothing to get wrong here
+    depth_names = [str(p_["pat"].get("name", "")).split("'")[0] for p_ in fn["hir"].get("params", []) if isinstance(p_.get("pat"), dict)]
+    depth_names = [n_ for n_ in depth_names if "depth" in n_ and "real" not in n_] or ["remaining_depth"]
+    bad = []
+    for de in (4, 5, 6):
+        for flag in ("Exact", "LowerBound", "UpperBound"):
+            for sc in (-100, -50, 0, 50, 100):
+                fired = False
+                shown = None
+                for r, t1 in rets:
+                    flds = {t_ for t_ in hir.subterms(t1) if isinstance(t_, tuple) and t_[:1] == ("field",) and t_[1] == ("var", "ENTRY")}
+                    a = {("var", "alpha"): ("lit", -50), ("var", "beta"): ("lit", 50), ("var", "initial_alpha"): ("lit", -50)}
+                    for dn in depth_names or ["remaining_depth"]:
+                        a[("var", dn)] = ("lit", 5)
+                    for f_ in flds:
+                        if f_[2] == "depth":
+                            a[f_] = ("lit", de)
+                        if f_[2] == "flag":
+                            a[f_] = ("variant", "search::NodeType::" + flag)
+                        if f_[2] == "score":
+                            a[f_] = ("lit", sc)
+                    v = hir.fold(hir.fold(t1, a), a)
+                    if not (v == ("lit", False) or hir.all_leaves_false(v)):
+                        fired = True
+                        shown = hir.fmt(v, 40)
+                want = de >= 5 and (flag == "Exact" or (flag == "LowerBound" and sc >= 50) or (flag == "UpperBound" and sc <= -50))
+                if fired and not want:      # (a node that declines a usable entry only searches more: nothing to report)
+                    bad.append(({"entry depth": de, "asked": 5, "kind": flag, "score": sc, "window": (-50, 50)}, "answers", shown))
+    r0 = rets[0][0]
+    ctx.check(rule, "node-answers-from-the-table-only-when-the-entry-settles-the-window", not bad, fn=fn["path"], file=fn["file"], line=hir.line(r0),
+              what="a node hands back a stored result that does not settle the window it was asked about (a bound inside the window, "
+                   "a bound on the wrong side, or a shallower result): the parent gets a score no search of that depth supports", expected="entry.depth >= remaining_depth && (Exact || Lower && score >= beta || Upper && score <= alpha)",
+              found=bad[:4])
+
+
+def n8(ctx, F, rule="C10.N8"):
+    """N8 what a node stores says what its search established, against the window it was *asked* about: a result at or below the
+    alpha it was entered with is an upper bound (never exact, never a lower bound), one at or above beta a lower bound (never exact,
+    never an upper bound), and the stored depth is not more than the depth searched.  (N7 trusts exactly this labelling.)"""
+    fn = F.fn("search::get_best_move_score")
+    body = fn["hir"]["body"]
+    env = hir.Env(fn["hir"], F)
+    sym = hir.Sym(env, F)
+    lits = [n for n, _ in hir.walk(body) if n.get("k") == "Struct" and str((n.get("to") or {}).get("path", n.get("ty", ""))).endswith("TableEntry")
+            or (n.get("k") == "Struct" and str(n.get("ty", "")).endswith("TableEntry"))]
+    if not lits:
+        return
+    pnames = {}
+    for p_ in fn["hir"].get("params", []):
+        if isinstance(p_.get("pat"), dict) and p_["pat"].get("name"):
+            pnames[p_["pat"].get("id")] = str(p_["pat"]["name"]).split("'")[0]
+    assigned = {}       # param id -> first place it is assigned
+    for n, _ in hir.walk(body):
+        if n.get("k") in ("Assign", "AssignOp"):
+            tgt = n.get("l") or n.get("lhs") or n.get("place") or {}
+            if tgt.get("k") == "Path" and (tgt.get("to") or {}).get("res") == "local" and tgt["to"].get("id") in pnames:
+                k_ = hir.order_key(n)
+                assigned[tgt["to"]["id"]] = min(assigned.get(tgt["to"]["id"], k_), k_)
+    depth_names = [n_ for n_ in pnames.values() if "depth" in n_ and "real" not in n_] or ["remaining_depth"]
+    for lit in lits:
+        fl = {f_["name"]: f_["e"] for f_ in lit.get("fields", [])}
+        if "flag" not in fl:
+            continue
+        # does the classification read a window bound that has been moved since the node was entered?
+        moved = sorted({pnames[n["to"]["id"]] for n, _ in hir.walk(fl["flag"]) if n.get("k") == "Path" and (n.get("to") or {}).get("res") == "local"
+                        and n["to"].get("id") in assigned and assigned[n["to"]["id"]] < hir.order_key(lit)})
+        ft = sym(fl["flag"])
+        bad = []
+        for sc in (-100, -50, 0, 50, 100):
+            a = {("var", "alpha"): ("lit", -50), ("var", "beta"): ("lit", 50), ("var", "initial_alpha"): ("lit", -50), ("var", "best_score"): ("lit", sc)}
+            v = hir.fold(hir.fold(ft, a), a)
+            kind = str(v[1]).split("::")[-1] if isinstance(v, tuple) and v[:1] == ("variant",) else None
+            if kind is None:
+                continue        # (classified from something else than the score and the window: undecided here)
+            if (sc <= -50 and kind in ("Exact", "LowerBound")) or (sc >= 50 and kind in ("Exact", "UpperBound")):
+                bad.append(({"score": sc, "window on entry": (-50, 50)}, kind))
+        ok_d = True
+        dfound = None
+        if "depth" in fl:
+            a = {("var", dn): ("lit", 5) for dn in depth_names}
+            dv = hir.fold(hir.fold(sym(fl["depth"]), a), a)
+            dfound = hir.fmt(dv, 40)
+            if isinstance(dv, tuple) and dv[:1] == ("lit",) and isinstance(dv[1], int) and dv[1] > 5:
+                ok_d = False
+        ctx.check(rule, "stored-bound-kind-matches-the-window-the-node-was-asked-about", not bad and not moved and ok_d, fn=fn["path"], file=fn["file"],
+                  line=hir.line(lit),
+                  what="the entry a node stores is labelled against the wrong window (a fail-low result stored as exact / lower bound, a "
+                       "fail-high result as exact / upper bound, the label computed from a bound the loop has moved since, or a depth "
+                       "larger than searched): a later visit takes it for more than the search established",
+                  expected="score <= alpha on entry -> UpperBound; score >= beta -> LowerBound; depth <= remaining depth",
+                  found={"unsound labels": bad[:4], "bounds moved before the label is computed": moved, "stored depth for depth 5": dfound})
+
+
 def run_rest(ctx, F, ks):
     n4(ctx, F)
     n6(ctx, F)
+    n7(ctx, F)
+    n8(ctx, F)
     # N5: a mating move can stand anywhere in the ordered list and need not look tactical: every generated move must be searched
     # unless a cut-off ends the node (forward pruning hides quiet and discovered mates) - the census of loop exits of C09.B3
     from . import p09
